@@ -179,6 +179,10 @@ REP_RULES = [INVALID,
              ("R8", "self.core_state_read().options.rcvtimeo", "self.core.verif_rcvtimeo()", 1),
              ("R6h", re.compile(r"\*self\.state\.lock\(\)\s*=\s*([^;]*);"), r"{ self.verif_state_acquire(); self.verif_state_write(\1); }", 1)] + guard_rules(["guard"])
 SELF_MUT = [("&self", "&mut self")]
+# C09: a future can only be dropped where it returned Pending, i.e. at an await.  If no write to the protocol state has
+# happened before any await of a call, dropping the call at any point leaves the protocol state exactly as it found it.
+AWAIT_REQ = [("C09:cancel_at_any_await_leaves_protocol_state_untouched", "self.log@ == old(self).log@")]
+AWAIT_REP = AWAIT_REQ
 ATTRS = ["#[verifier::loop_isolation(false)]", "#[verifier::allow_complex_invariants]", "#[verifier::exec_allows_no_decreases_clause]"]
 
 parts = [
@@ -191,7 +195,7 @@ parts = [
   Raw(text=COMMON, label="reqrep-common"),
   Item(REQ, "enum", "ReqState", keep_derive=()),
   Raw(text=REQ_GLUE, label="req-glue"),
-  Fn(REQ, "send", impl=REQ_IMPL, emit_impl="impl ReqSocket", sig_sub=SELF_MUT, mut_params=["msg"], attrs=ATTRS,
+  Fn(REQ, "send", impl=REQ_IMPL, emit_impl="impl ReqSocket", sig_sub=SELF_MUT, mut_params=["msg"], attrs=ATTRS, await_inv=AWAIT_REQ,
      requires=["!old(self).send_turn.held@"],
      ensures=[
        ("C10:failed_send_changes_nothing", "r is Err ==> req_no_write(old(self), final(self))"),
@@ -231,7 +235,7 @@ parts = [
          extra=[("R8", "received_msg_result.as_ref().map_or(true, |m| !m.is_more())", "verif_reply_finished(received_msg_result)", 1)] + guard_rules(["state_guard"])),
   Scan(REQ, "recv", r"self\.state\b", 3, impl=REQ_IMPL, why="turn check region, finish region, and one read-only `matches!(*self.state.lock(), ReqState::ReadyToSend)` inside tokio::select!"),
   Scan(REQ, "recv", r"matches!\(\*self\.state\.lock\(\), ReqState::ReadyToSend\)", 1, impl=REQ_IMPL, why="the access outside the regions is a read"),
-  Fn(REQ, "recv_multipart", impl=REQ_IMPL, emit_impl="impl ReqSocket", sig_sub=SELF_MUT, attrs=ATTRS,
+  Fn(REQ, "recv_multipart", impl=REQ_IMPL, emit_impl="impl ReqSocket", sig_sub=SELF_MUT, attrs=ATTRS, await_inv=AWAIT_REQ,
      ensures=[
        ("C10:recv_multipart_out_of_turn_is_invalid_state_and_changes_nothing",
         "final(self).seen@.len() > old(self).seen@.len() && !(req_first_seen(old(self), final(self)) is ExpectingReply) ==> (r matches Err(ZmqError::InvalidState(_))) && req_no_write(old(self), final(self))"),
@@ -245,7 +249,7 @@ parts = [
   Item(REP, "struct", "PeerInfo", keep_derive=()),
   Item(REP, "enum", "RepState", keep_derive=()),
   Raw(text=REP_GLUE, label="rep-glue"),
-  Fn(REP, "recv", impl=REP_IMPL, emit_impl="impl RepSocket", sig_sub=SELF_MUT, attrs=ATTRS,
+  Fn(REP, "recv", impl=REP_IMPL, emit_impl="impl RepSocket", sig_sub=SELF_MUT, attrs=ATTRS, await_inv=AWAIT_REP,
      requires=["!old(self).recv_turn.held@"],
      ensures=[
        ("C10:recv_out_of_turn_is_invalid_state_and_changes_nothing",
@@ -256,7 +260,7 @@ parts = [
      ],
      extra=REP_RULES),
   Scan(REP, "recv", r"self\.state\b", 2, impl=REP_IMPL, why="both accesses are inside the extracted function"),
-  Fn(REP, "recv_multipart", impl=REP_IMPL, emit_impl="impl RepSocket", sig_sub=SELF_MUT, attrs=ATTRS,
+  Fn(REP, "recv_multipart", impl=REP_IMPL, emit_impl="impl RepSocket", sig_sub=SELF_MUT, attrs=ATTRS, await_inv=AWAIT_REP,
      requires=["!old(self).recv_turn.held@"],
      ensures=[
        ("C10:recv_multipart_out_of_turn_is_invalid_state_and_changes_nothing",
@@ -282,4 +286,4 @@ parts = [
   Scan(REP, "send_multipart", r"self\.state\b", 1, impl=REP_IMPL, why="the only access is inside the region"),
 ]
 
-unit = Unit("reqrep", ["C10"], parts, safety_props=["C10"], notes="REQ/REP lock-step state machines under interference")
+unit = Unit("reqrep", ["C10", "C09"], parts, safety_props=["C10"], notes="REQ/REP lock-step state machines under interference")
